@@ -175,7 +175,20 @@ func (s *shareRun) do(rq Req) response {
 	req.Header.Set("X-Prefixhandler-Pathsuffix", suffix)
 	rec := httptest.NewRecorder()
 	t0 := time.Now()
-	s.h.ServeHTTP(rec, req)
+	panicked := ""
+	func() {
+		defer func() {
+			if r := recover(); r != nil {
+				// net/http recovers a handler's panic per connection and
+				// drops the connection: the client gets nothing
+				panicked = fmt.Sprint(r)
+			}
+		}()
+		s.h.ServeHTTP(rec, req)
+	}()
+	if panicked != "" {
+		return response{code: 599, body: []byte("the handler panicked: " + panicked), t0: t0, t1: time.Now()}
+	}
 	return response{code: rec.Code, body: rec.Body.Bytes(), t0: t0, t1: time.Now()}
 }
 
